@@ -283,7 +283,7 @@ def ctxOps (ops : List String) : String :=
       | _ => (sm, pm, "bad" :: o)
     else if op.startsWith "p" then
       match ((op.drop 1).toString.splitOn ":").map String.toNat! with
-      | [id, sid, tag] => if id ≤ 255 ∧ sid ≤ 31 ∧ (Ctx.get sm sid).isSome ∧ tag ≤ 31 then (sm, Ctx.put pm id tag, "ok" :: o) else (sm, pm, "rej" :: o)
+      | [id, sid, tag] => if id ≤ 255 ∧ sid ≤ 31 ∧ tag ≤ 31 then (sm, Ctx.put pm id tag, "ok" :: o) else (sm, pm, "rej" :: o)
       | _ => (sm, pm, "bad" :: o)
     else (sm, pm, "bad" :: o)) (([] : Ctx.PMap Nat), ([] : Ctx.PMap Nat), [])
   " ".intercalate out.reverse
@@ -349,8 +349,7 @@ def step (st : St) (line : String) : St × String :=
   | ["avcc"] => (st, avcc [])
   | ["reset"] => ({}, "ok")
   | ["dump"] =>
-    (st, "sps=[" ++ ",".intercalate ((Ctx.entries st.sps).map fun e => s!"{e.1}:{e.2.levelIdc}") ++ "] pps=[" ++
-         ",".intercalate ((Ctx.entries st.pps).map fun e => s!"{e.1}:{e.2.spsId}:{e.2.numRefIdxL0DefaultActiveMinus1}") ++ "]")
+    (st, "sps=[" ++ ";".intercalate ((Ctx.iter st.sps).map Render.sps) ++ "] pps=[" ++ ";".intercalate ((Ctx.iter st.pps).map Render.pps) ++ "]")
   | ["full", _] => (st, "ok")
   | ["sps", h] => spsOn st (NalSrc.srcOfBytes (bytesOfHex h))
   | ["sps"] => spsOn st (NalSrc.srcOfBytes [])
